@@ -57,6 +57,9 @@ def main():
     if not ok:
         failed = sorted(set(re.findall(r'File "\./([A-Za-z0-9_]+\.v)", line (\d+)', blog)))
         msgs = re.findall(r'(File "\./[A-Za-z0-9_]+\.v", line \d+, characters [0-9-]+:\nError:[^\n]*(?:\n[^\n]+){0,6})', blog)
+        timed = re.findall(r"\[Makefile\.coq:\d+: ([A-Za-z0-9_]+)\.vo\] Error 124", blog)
+        if timed:
+            proof_problems.append("coqc exceeded the per-file time limit on: %s" % ", ".join(t + ".v" for t in timed))
         proof_problems.append("coq build failed in: %s" % ", ".join("%s:%s" % f for f in failed))
         coverage["coq_build_errors"] = [m[:600] for m in msgs[:5]] or [blog[-1500:]]
 
